@@ -52,6 +52,10 @@ pub enum Act {
     SubmitOutcome(u8), // 0 ok, 1 rejected by the manager, 2 directory error
     Connect { alloc: usize, unknown: bool },
     Lose { worker: usize, crashed: bool },
+    /// loss notification for a worker that never announced its connection
+    LoseFresh { alloc: usize, crashed: bool },
+    /// duplicate loss notification of an already lost worker
+    LoseAgain { worker: usize, crashed: bool },
     Pause(usize),
     Resume(usize),
     Remove { queue: usize, force: bool },
@@ -212,7 +216,11 @@ pub fn gen_case(seed: u64) -> Case {
                 _ => 2,
             }),
             6 => Act::Connect { alloc: rng.usize_below(64), unknown: rng.chance(8, 100) },
-            7 => Act::Lose { worker: rng.usize_below(64), crashed: rng.chance(50, 100) },
+            7 => match rng.below(10) {
+                0 | 1 => Act::LoseFresh { alloc: rng.usize_below(64), crashed: rng.chance(50, 100) },
+                2 => Act::LoseAgain { worker: rng.usize_below(64), crashed: rng.chance(50, 100) },
+                _ => Act::Lose { worker: rng.usize_below(64), crashed: rng.chance(50, 100) },
+            },
             8 => Act::Pause(rng.usize_below(nq)),
             9 => Act::Resume(rng.usize_below(nq)),
             10 => Act::Remove { queue: rng.usize_below(nq), force: rng.chance(50, 100) },
@@ -451,6 +459,48 @@ pub async fn run_case(case: &Case) -> Rep {
                         }
                     }
                     rep.c("worker_losses");
+                }
+            }
+            Act::LoseFresh { alloc, crashed } => {
+                if !alloc_order.is_empty() {
+                    let aid = alloc_order[*alloc % alloc_order.len()].clone();
+                    next_worker += 1;
+                    let wid = next_worker;
+                    workers.push((wid, aid.clone(), false, true));
+                    let details = LostWorkerDetails {
+                        reason: if *crashed { LostWorkerReason::ConnectionLost } else { LostWorkerReason::Stopped },
+                        lifetime: Duration::from_secs(if *crashed { 5 } else { 600 }),
+                    };
+                    lab.worker_lost(WorkerId::new(wid), manager_info(&aid), details).await;
+                    if let Some(t) = allocs.get_mut(&aid) {
+                        let st = before.queues.iter().flat_map(|q| q.allocations.iter()).find(|a| a.id == aid).map(|a| rank(&a.status));
+                        if st == Some(1) && !t.removed {
+                            t.lost_while_running.insert(wid);
+                        }
+                    }
+                    rep.c("worker_losses_before_connect");
+                }
+            }
+            Act::LoseAgain { worker, crashed } => {
+                let candidates: Vec<usize> = workers.iter().enumerate().filter(|(_, w)| w.3 && w.1 != "unknown-allocation").map(|(i, _)| i).collect();
+                if !candidates.is_empty() {
+                    let i = candidates[*worker % candidates.len()];
+                    let (wid, aid, _, _) = workers[i].clone();
+                    let details = LostWorkerDetails {
+                        reason: if *crashed { LostWorkerReason::ConnectionLost } else { LostWorkerReason::Stopped },
+                        lifetime: Duration::from_secs(if *crashed { 5 } else { 600 }),
+                    };
+                    lab.worker_lost(WorkerId::new(wid), manager_info(&aid), details).await;
+                    if let Some(t) = allocs.get_mut(&aid) {
+                        let st = before.queues.iter().flat_map(|q| q.allocations.iter()).find(|a| a.id == aid).map(|a| rank(&a.status));
+                        if st == Some(1) && !t.removed {
+                            // distinct workers are counted: a worker whose first loss arrived while the
+                            // allocation was still queued is counted now
+                            t.lost_while_running.insert(wid);
+                            t.connected.remove(&wid);
+                        }
+                    }
+                    rep.c("worker_losses_duplicated");
                 }
             }
             Act::Pause(q) => {
